@@ -101,7 +101,7 @@ func NewGenerator(spec *specification.Spec, cfg Config, opts ...GenOption) (*Gen
 
 	g.HandlersFile = NewHandlersFileTemplate(g.Handlers, isWriteJSONFunc, cfg)
 
-	g.Client = NewClient(spec, g.Operations)
+	g.Client = NewClient(spec, g.Operations, g.Options.BasePath)
 	g.Router = NewRouter(spec, g.Paths, g.Operations, g.Options)
 
 	return g, nil
